@@ -163,10 +163,41 @@ def _g3_closed_form(ctx, fi, R):
     ctx.floor(R, 4)
 
 
+def _g4(ctx):
+    R = "C24-G4"
+    ctx.doc(R, "geometry helpers are pure in their arguments: a memoised helper keys its cache on everything the result depends on (an Einsum's NAME does not identify its projections), "
+               "and every access of an Einsum contributes its own bound to the iteration-space string")
+    from ..util import memo_key_gaps, memo_sites
+    n = 0
+    for rel in (SYM, ISL, "accelforge/frontend/workload.py"):
+        for fi in ctx.module(rel, R).funcs.values():
+            for cache, key, st in memo_sites(fi):
+                n += 1
+                gaps = memo_key_gaps(fi, key)
+                ctx.check(not gaps, R, fi, st, f"the cache `{cache}` is keyed on `{norm(key)}` but the cached value also depends on {gaps}: a later workload that reuses the names with another projection "
+                          "gets the first workload's strides / sizes", f"cache `{cache}` keyed on all inputs")
+    if n == 0:
+        ctx.ok(R, ctx.module(SYM, R), None, "no memoised geometry helper (0 sites)", nontrivial=False)
+    # every (tensor, rank) projection gets its bound: no skip keyed on the rank alone inside the loop that emits the bounds
+    wl = ctx.func("accelforge/frontend/workload.py", "Workload.get_iteration_space_shape_isl_string", R)
+    loops = [l for l in wl.stmts() if isinstance(l, ast.For) and norm(l.iter).endswith("projection.items()")]
+    ctx.require(len(loops) == 1 and isinstance(loops[0].target, ast.Tuple), R, "loop over the projections of an access")
+    lp = loops[0]
+    rank = lp.target.elts[0].id
+    skips = [s_ for s_ in ast.walk(lp) if isinstance(s_, ast.If) and any(isinstance(b, ast.Continue) for b in s_.body) and isinstance(s_.test, ast.Compare) and isinstance(s_.test.ops[0], ast.In)
+             and norm(s_.test.left) == rank and norm(s_.test.comparators[0]) not in ("rank_sizes", "global_rank_sizes")]
+    ctx.check(not skips, R, wl, skips[0] if skips else lp, f"bounds are emitted once per rank NAME (`{norm(skips[0].test) if skips else ''}` skips the entry): a second access that indexes the same rank with another expression "
+              "loses its bound, and sizes / operation counts are those of a larger box", "every access emits its own bound")
+    apps = [c for c in ast.walk(lp) if isinstance(c, ast.Call) and isinstance(c.func, ast.Attribute) and c.func.attr == "append"]
+    ctx.check(len(apps) >= 2, R, wl, lp, "the loop does not emit the bounds", f"{len(apps)} bound emissions")
+    ctx.floor(R, 3)
+
+
 def check(ctx):
     _g1(ctx)
     _g2(ctx)
     _g3(ctx)
+    _g4(ctx)
 
 
 _ORIG = '            for rank_var in rank_vars:\n                stride = rank_projection.coeff(rank_var)\n\n                # Careful: in-place mutation of cons_shape\n                original_shape = shape[rank_var]\n                shape[rank_var] = 1\n                halo = compute_rank_occupancy(rank_projection, shape) - 1\n                shape[rank_var] = original_shape\n\n'
